@@ -195,6 +195,10 @@ impl PacketBuilder {
         let Some(sent) = sent else {
             return;
         };
+        // Frames attached while the packet was populated (PATH_CHALLENGE / PATH_RESPONSE on a packet
+        // planned as ACK-only) make it ack-eliciting after all; otherwise its bytes would count as
+        // in flight without any timer covering them.
+        let ack_eliciting = ack_eliciting || sent.non_retransmits;
 
         let size = match padded || ack_eliciting {
             true => size as u16,
